@@ -456,8 +456,10 @@ func (wd *world) step(ws []string) string {
 		}
 		in, _ := json.Marshal(map[string]int64{"round": wd.w.B.Round})
 		var r string
-		if wd.riskyCfg && wd.dryRun(wd.gen, "payFees", string(in)) {
-			r = "panic" // (through UpdateState this panic would end the process)
+		// always tried directly first: a panic anywhere in payFees (view change or fee part) would end the process
+		// when it happens in the goroutine of Chain.ExecuteSmartContract
+		if wd.dryRun(wd.gen, "payFees", string(in)) {
+			r = "panic"
 		} else {
 			r = normPay(wd.exec(wd.gen, "payFees", string(in)))
 		}
